@@ -105,7 +105,8 @@ func (t *fnTrans) atEntry() {
 		hn := t.h.reg("ghost:"+k+".n", "Int")
 		t.assume(eq(t.h.get(t.cur, hn), "0"))
 	}
-	for _, st := range t.sites {
+	for _, se := range t.allSites {
+		st := se.label
 		if strings.HasPrefix(st, "select#") {
 			hv := t.h.reg("ghost:sel:"+st, "Int")
 			t.assume(eq(t.h.get(t.cur, hv), "(- 2)"))
@@ -396,8 +397,9 @@ func (t *fnTrans) enterLoop(b *ssa.BasicBlock, li *loopInfo) {
 	}
 	if t.contract != nil {
 		// user ghost variables updated inside the loop are loop-carried
-		for in, site := range t.sites {
-			if li.blocks[in.Block()] {
+		for _, se := range t.allSites {
+			site := se.label
+			if inLoop(li, se.in, se.node) {
 				for _, sl := range t.contract.atSet[site] {
 					if i := strings.Index(sl.text, "="); i > 0 {
 						vars["ghost:u:"+strings.TrimSuffix(strings.TrimSpace(sl.text[:i]), ":bool")] = true
@@ -415,12 +417,13 @@ func (t *fnTrans) enterLoop(b *ssa.BasicBlock, li *loopInfo) {
 		delete(t.locs, phi)
 	}
 	// select indices: a select inside the loop has not run yet in this iteration; others keep their value
-	for in, st := range t.sites {
+	for _, se := range t.allSites {
+		st := se.label
 		if !strings.HasPrefix(st, "select#") {
 			continue
 		}
 		hv := t.h.reg("ghost:sel:"+st, "Int")
-		if li.blocks[in.Block()] {
+		if inLoop(li, se.in, se.node) {
 			t.h.set(t.cur, hv, "(- 2)")
 		} else {
 			t.h.set(t.cur, hv, t.h.get(entryState, hv))
@@ -515,10 +518,14 @@ func (t *fnTrans) assignSites() {
 		base string
 		pos  token.Pos
 		idx  int
+		vp   vpos
+		node *inlNode
 	}
 	var all []ent
 	i := 0
-	for _, b := range t.fn.Blocks {
+	for _, node := range t.planNodes() {
+	  node.sites = map[ssa.Instruction]string{}
+	  for _, b := range node.fn.Blocks {
 		for _, in := range b.Instrs {
 			i++
 			base := ""
@@ -534,7 +541,9 @@ func (t *fnTrans) assignSites() {
 			case *ssa.Select:
 				base = "select"
 			case *ssa.Return:
-				base = "return"
+				if node.call == nil {
+					base = "return" // a helper's return is not a return of this function
+				}
 			case *ssa.MakeChan:
 				base = "makechan"
 			case *ssa.If:
@@ -545,9 +554,10 @@ func (t *fnTrans) assignSites() {
 				if iff, ok := in.(*ssa.If); ok {
 					pos = condPos(iff.Cond)
 				}
-				all = append(all, ent{in, base, pos, i})
+				all = append(all, ent{in, base, pos, i, append(append(vpos{}, node.vp...), pos), node})
 			}
 		}
+	  }
 	}
 	sort.SliceStable(all, func(a, b int) bool {
 		// sites without a source position (compiler-made branches) go last
@@ -555,16 +565,26 @@ func (t *fnTrans) assignSites() {
 		if va != vb {
 			return va
 		}
+		if len(all[a].vp) > 1 || len(all[b].vp) > 1 {
+			if vposLess(all[a].vp, all[b].vp) != vposLess(all[b].vp, all[a].vp) {
+				return vposLess(all[a].vp, all[b].vp)
+			}
+			return all[a].idx < all[b].idx
+		}
 		if all[a].pos != all[b].pos {
 			return all[a].pos < all[b].pos
 		}
 		return all[a].idx < all[b].idx
 	})
 	cnt := map[string]int{}
+	t.allSites = nil
 	for _, e := range all {
 		cnt[e.base]++
-		t.sites[e.in] = fmt.Sprintf("%s#%d", e.base, cnt[e.base])
+		label := fmt.Sprintf("%s#%d", e.base, cnt[e.base])
+		e.node.sites[e.in] = label
+		t.allSites = append(t.allSites, siteEnt{e.in, label, e.node})
 	}
+	t.sites = t.planNodes()[0].sites
 }
 
 func (t *fnTrans) staticChanName(v ssa.Value) string {
@@ -593,7 +613,12 @@ func (t *fnTrans) finishNames() {
 		if len(os) == 1 {
 			continue
 		}
-		sort.SliceStable(os, func(i, j int) bool { return os[i].posv < os[j].posv })
+		sort.SliceStable(os, func(i, j int) bool {
+			if len(os[i].vkey) > 1 || len(os[j].vkey) > 1 {
+				return vposLess(os[i].vkey, os[j].vkey)
+			}
+			return os[i].posv < os[j].posv
+		})
 		for i, o := range os {
 			o.Name = fmt.Sprintf("%s#%d", name, i+1)
 		}
